@@ -97,6 +97,9 @@ struct nbw {
 	int dead;		/* writer unusable after an allocation failure (only freed) */
 	int wrote_after_fail;
 	int send_error_seen;	/* the transport has failed under this writer */
+	uint8_t * alt;		/* second candidate stream: without the bytes of a write that reported failure (OOM) */
+	size_t alen;
+	int forked;
 	uint64_t wctr;
 };
 struct sockst {
@@ -1002,6 +1005,8 @@ nbw_check_prefix(struct sockst * S, int final)
 {
 	struct nbw * W = &S->nbw;
 
+	if (W->forked && S->vs->txlen <= W->alen && memcmp(S->vs->tx, W->alt, S->vs->txlen) == 0)
+		return;		/* consistent with "the write that reported failure was not queued" */
 	if (S->vs->txlen > W->tlen)
 		sim_viol("C07.wr.prefix", "longer", "the peer received %zu bytes but only %zu were written", S->vs->txlen, W->tlen);
 	if (memcmp(S->vs->tx, W->truth, S->vs->txlen) != 0)
@@ -1066,8 +1071,21 @@ nbw_write(struct sockst * S, size_t n, int use_reserve, size_t m)
 	if (rc != 0) {
 		if (!AF_SINCE(f0))
 			sim_viol("C07.wr.discard", "write-fail", "netbuf write failed (%d) without an allocation failure", rc);
-		/* the data may or may not have been queued; the writer is only freed from here on */
-		W->dead = 1;
+		/*
+		 * The write reported failure after space was reserved: its bytes may or may not go out later.
+		 * Keep both candidate streams; the writer stays in use (once), so that a buffer lost or
+		 * duplicated by the failure shows up as a stream that matches neither.
+		 */
+		if (W->forked || sim_af_persist) {
+			W->dead = 1;
+			nbw_append_truth(W, tmp, len);
+			free(tmp);
+			return;
+		}
+		W->forked = 1;
+		W->alt = malloc(W->tlen + 1);
+		memcpy(W->alt, W->truth, W->tlen);
+		W->alen = W->tlen;
 		nbw_append_truth(W, tmp, len);
 		free(tmp);
 		return;
@@ -1077,6 +1095,11 @@ nbw_write(struct sockst * S, size_t n, int use_reserve, size_t m)
 		W->wrote_after_fail = 1;
 	} else {
 		nbw_append_truth(W, tmp, len);
+		if (W->forked) {
+			W->alt = realloc(W->alt, W->alen + len + 1);
+			memcpy(W->alt + W->alen, tmp, len);
+			W->alen += len;
+		}
 		R->cnt[N_NBW_BYTES] += len;
 		if (inflight)
 			R->cnt[N_NBW_QUEUED_BEHIND]++;
